@@ -252,12 +252,48 @@ func genCase(c *rig.Ctx, i int) Case {
 			addLine(genLine(r))
 		}
 	}
+	// hop-by-hop: a Connection header that NAMES headers, among them the ones the gateway generates for this identity
+	// (the reverse proxy strips what Connection names; identity headers must be written after that)
+	if r.Intn(8) == 0 {
+		tokens := []string{"Impersonate-Group", "impersonate-group", "Impersonate-User", "Authorization", "Impersonate-Uid", "X-Forwarded-For", "keep-alive", "Accept"}
+		if cs.User != nil {
+			for _, e := range cs.User.Extra {
+				if h, err := realExtraHeader(rig.UnHex(e.K)); err == nil {
+					tokens = append(tokens, h, h, strings.ToLower(h))
+				}
+			}
+		}
+		for _, l := range cs.Client {
+			if n := rig.UnHex(l.N); strings.HasPrefix(strings.ToLower(n), "impersonate-extra-") {
+				tokens = append(tokens, n)
+			}
+		}
+		var chosen []string
+		for k, n := 0, 1+r.Intn(3); k < n; k++ {
+			chosen = append(chosen, rig.Pick(r, tokens))
+		}
+		name := rig.Pick(r, []string{"Connection", "connection", "CONNECTION"})
+		if r.Intn(3) == 0 { // one line per token
+			for _, t := range chosen {
+				cs.Client = append(cs.Client, Line{rig.Hex(name), rig.Hex(t)})
+			}
+		} else {
+			cs.Client = append(cs.Client, Line{rig.Hex(name), rig.Hex(strings.Join(chosen, rig.Pick(r, []string{", ", ","})))})
+		}
+	}
 	r.Shuffle(len(cs.Client), func(a, b int) { cs.Client[a], cs.Client[b] = cs.Client[b], cs.Client[a] })
 	if wild && r.Intn(3) == 0 {
 		cs.Client = append(cs.Client, rig.Pick(r, malformedLines))
 		r.Shuffle(len(cs.Client), func(a, b int) { cs.Client[a], cs.Client[b] = cs.Client[b], cs.Client[a] })
 	}
 	cs.Upgrade = r.Intn(6) == 0
+	// the endpoint's life between requests: its transport is rebuilt, its cluster object applied again, its health flaps
+	if i == 3 || i == 4 || i == 5 || i == 6 || r.Intn(50) == 0 {
+		cs.Before = rig.Pick(r, []string{"reset-transport", "reset-transport", "reset-twice", "resync", "flap"})
+		if i >= 3 && i <= 6 {
+			cs.Before = []string{"reset-transport", "resync", "flap", "reset-twice"}[i-3]
+		}
+	}
 	// the cluster's policy, keyed by the full attributes of a record (incl. the namespace), built around the records the
 	// specification requires for this request
 	var m modelOut
